@@ -9,3 +9,6 @@ pub mod refint;
 pub mod runner;
 pub mod xmlrender;
 pub mod dump;
+
+#[cfg(rufsm_verif)]
+pub mod sched;
